@@ -807,6 +807,8 @@ def parseOp (toks : List String) : Option SOp :=
     pure (.edit (← parseNat j) (.remove (← parseNat a) (← parseNat b)))
   | ["pool", "release", j] => do pure (.release (← parseNat j))
   | ["pool", "rbdrop", j] => do pure (.rbdrop (← parseNat j))
+  -- the `ReadBuf` dropped by an unwinding panic (caught further up): `Drop` is `Drop`
+  | ["pool", "rbdropp", j] => do pure (.rbdrop (← parseNat j))
   | ["pool", "prel", js] => do
     let js ← parseNatList js
     pure (.prel js)
